@@ -46,7 +46,17 @@ def run_one(args: Tuple[str, Dict[str, object]]) -> Dict[str, object]:
         os.makedirs(os.path.join(tmp, "src"))
         shutil.copytree(os.path.join(repo, "src", "datashard"), os.path.join(tmp, "src", "datashard"),
                         ignore=shutil.ignore_patterns("__pycache__"))
-        err = _apply(tmp, m["edits"])  # type: ignore[arg-type]
+        err = None
+        if m.get("patch"):
+            import subprocess
+            pr = subprocess.run(["git", "apply", "--unsafe-paths", "--directory=" + tmp, str(m["patch"])], cwd=tmp,
+                                capture_output=True, text=True)
+            if pr.returncode != 0:
+                pr = subprocess.run(["patch", "-p1", "-s", "-i", str(m["patch"])], cwd=tmp, capture_output=True, text=True)
+            if pr.returncode != 0:
+                err = "stale: seeded patch no longer applies: " + (pr.stderr or pr.stdout)[-120:]
+        else:
+            err = _apply(tmp, m["edits"])  # type: ignore[arg-type]
         if err:
             return {"id": m["id"], "status": "stale" if err.startswith("stale") else "broken", "detail": err}
         pid = str(m["prop"])
@@ -63,8 +73,26 @@ def run_one(args: Tuple[str, Dict[str, object]]) -> Dict[str, object]:
         shutil.rmtree(tmp, ignore_errors=True)
 
 
+def seeded_items(prop: Optional[str]) -> List[Dict[str, object]]:
+    """The confirmed seeded changes of /verif/seeded (independent authors) as additional must-fire items."""
+    import glob
+    import json
+    out: List[Dict[str, object]] = []
+    root = os.path.join(os.path.dirname(os.path.dirname(os.path.abspath(__file__))), "seeded")
+    for mf in sorted(glob.glob(os.path.join(root, "*", "meta.json"))):
+        with open(mf) as fh:
+            m = json.load(fh)
+        if prop is not None and m.get("property") != prop:
+            continue
+        out.append({"id": "seed-" + m["id"], "prop": m["property"], "rule": m["property"] + ".", "what": (m.get("summary") or "")[:80],
+                    "patch": os.path.join(os.path.dirname(mf), "patch.diff"), "edits": []})
+    return out
+
+
 def selftest(repo: str = "/repo", prop: Optional[str] = None, jobs: int = 16) -> Tuple[bool, List[Dict[str, object]]]:
     items: List[Dict[str, object]] = []
+    for m in seeded_items(prop):
+        items.append(dict(m, kind="mutant"))
     for m in MUTANTS:
         if prop is None or m["prop"] == prop:
             items.append(dict(m, kind="mutant"))
